@@ -20,6 +20,7 @@ pub mod e3c;
 pub mod e3o;
 pub mod e3cfg;
 pub mod e3s;
+pub mod e3p;
 pub mod pure_c07f;
 pub mod pure_c17;
 pub mod pure_c18;
